@@ -43,7 +43,7 @@ Print Assumptions C12_ack_matches.
    or not MinuteTicker has freed it); mismatching lease; address outside the client's
    subnet — are never ACKed. *)
 Theorem C12_no_ack_when : forall c h t m,
-  In t (trace c (init c) h) -> op_msg (t_op t) = Some m ->
+  sub_ok c -> In t (trace c (init c) h) -> op_msg (t_op t) = Some m ->
   c12_no_ack_when c (t_pre t) m (op_now (t_op t)) (t_reply t) = true.
 Proof. exact no_ack_when_all. Qed.
 Print Assumptions C12_no_ack_when.
@@ -55,16 +55,49 @@ Theorem C12_spec_column_never_fails : forall c h t,
 Proof. exact c12_fails_nil. Qed.
 Print Assumptions C12_spec_column_never_fails.
 
-(* A lease file left behind by a run with other prefix lengths does not change the
-   configuration in force (configChanged as repaired by e01fd08): the handler then
-   behaves as [run c (init c)], to which the theorems above apply. *)
-Theorem C12_stale_file_config : forall c hb nb, loaded_cfg c hb nb = c.
-Proof. exact loaded_cfg_id. Qed.
+(* Restart.  A handler of configuration cB constructed on ANY lease file (subnets [file], whatever
+   configuration wrote it) holds the subnets of cB — LAN prefix, gateway, DNS server and server id of
+   both subnets, parameter by parameter: a file value is kept only where configChanged found it equal
+   to the configuration's, otherwise both subnets (and their option maps) are rebuilt from cB and the
+   lease table is emptied.  Hence [cfg_ok (loaded_cfg file cB)], and every theorem above applies to the
+   restarted handler with c := loaded_cfg file cB: its OFFERs/ACKs carry cB's values. *)
+Theorem C12_stale_file_config : forall file cB, sub_ok (loaded_cfg file cB).
+Proof. exact loaded_sub_ok. Qed.
 Print Assumptions C12_stale_file_config.
+
+Theorem C12_restart_cfg_ok : forall file cB, c_nfip cB = c_hostip cB -> cfg_ok (loaded_cfg file cB).
+Proof. exact loaded_cfg_ok. Qed.
+Print Assumptions C12_restart_cfg_ok.
+
+Theorem C12_restart_reset : forall file cB,
+  sub_changed (wanted cB) file = true ->
+  loaded_cfg file cB = set_sub cB (wanted cB) /\ forall saved, restart_state file cB saved = init (loaded_cfg file cB).
+Proof. exact restart_reset. Qed.
+Print Assumptions C12_restart_reset.
+
+(* From ANY state — in particular from the lease table a restarted handler restores from its file
+   (whose addresses the new session does not track yet) — every OFFER/ACK along every history
+   carries the configuration's router / DNS / mask / server id / lease time for the client's capture
+   state, echoes xid and chaddr, and puts the mask before the router. *)
+Theorem C12_reply_config_any_state : forall c s h t m r,
+  cfg_ok c -> In t (trace c s h) -> op_msg (t_op t) = Some m -> t_reply t = Some r ->
+  c12_config c (t_pre t) m r = true /\ c12_mask_first r = true.
+Proof. exact reply_config_any_state. Qed.
+Print Assumptions C12_reply_config_any_state.
+
+(* ... hence after a restart on any lease file, with any restored leases, the replies carry cB's values
+   (the want_* accessors read the configuration fields of cB, which loaded_cfg leaves untouched). *)
+Theorem C12_restart_reply_config : forall file cB saved h t m r,
+  c_nfip cB = c_hostip cB ->
+  let cL := loaded_cfg file cB in
+  In t (trace cL (restart_state file cB saved) h) -> op_msg (t_op t) = Some m -> t_reply t = Some r ->
+  c12_config cL (t_pre t) m r = true /\ c12_mask_first r = true.
+Proof. exact restart_reply_config. Qed.
+Print Assumptions C12_restart_reply_config.
 
 (* Non-vacuity. *)
 Example C12_cfg_ok_example : cfg_ok wcfg.
-Proof. reflexivity. Qed.
+Proof. exact wcfg_ok. Qed.
 Print Assumptions C12_cfg_ok_example.
 
 Example C12_live_example :
